@@ -409,6 +409,28 @@ def r4(ck):
         for p in PathEval(x).run():
             if p.end == "return" and sum(1 for c in p.calls if c[1].get("path") == "tracing::span::Span::log") > 1:
                 ck.bad("C18.R4", "span lifecycle logging twice", where(x.raw["sp"]), "%s logs twice on one path" % x.path, fn=x.path)
+    # ... and each of them does log, once, unless one of the three documented reasons applies on the path: the level is
+    # above log's compile-time ceiling, a collector has been installed, or the span has no metadata (Span::none()).
+    # Anything else that lets a lifecycle step return silently -- a shortcut for the no-op collector, say -- loses a record.
+    for x in {x.path: x for x, bb in sites}.values():
+        silent_bad = 0
+        nlog = 0
+        for pth in PathEval(x).run():
+            if pth.end != "return":
+                continue
+            if any(c[1].get("path") == "tracing::span::Span::log" for c in pth.calls):
+                nlog += 1
+                continue
+            cs = [(show(c[0]), c[1]) for c in pth.conds]
+            reason = any(t.startswith("le(Level::") and v == 0 for t, v in cs) or any(t == "has_been_set()" and v != 0 for t, v in cs) or \
+                any(t in ("discr(arg1.meta)", "discr((*arg1).meta)") and v != 1 for t, v in cs)
+            if not reason:
+                silent_bad += 1
+        key = "%s logs its lifecycle record unless statically off / a collector is installed / the span has no metadata" % x.path.replace("tracing::span::", "")
+        if nlog and not silent_bad:
+            ck.ok("C18.R4", key, fn=x.path)
+        else:
+            ck.bad("C18.R4", key, where(x.raw["sp"]), "%d returning path(s) emit no log record for another reason: with the `log` feature and no collector that step of the span's life is missing from the log" % silent_bad, fn=x.path)
     sl = L.body("tracing::span::Span::log")
     if ck.anchor("C18.R4", "Span::log", sl):
         per = [sum(1 for c in p.calls if c[1].get("trait") == "log::Log" and c[1].get("method") == "log") for p in PathEval(sl).run() if p.end == "return"]
